@@ -403,7 +403,9 @@ func checkC18(tier string) *Report {
 		replay := mustJSON(map[string]any{"ops": append(n.Ops(alpha), op)})
 		if op.Msg != nil {
 			wantOK := op.Msg.Signer == w.Authority
-			if res.Succeeded() != wantOK {
+			// (the pause/unpause operations of the thorough alphabet only vary the surrounding state; their own
+			// outcomes — a redundant pause fails — are C08/C09's subject)
+			if op.Msg.RPC == "UpdateParams" && res.Succeeded() != wantOK {
 				rep.Violate(Violation{Kind: "admin-outcome", Sig: sig, Replay: replay, What: fmt.Sprintf("%s: expected success=%v got %v (%s)", op.Label, wantOK, res.Succeeded(), res.Msg.Err)})
 			}
 			if !res.Succeeded() && w.StateKey(pre) != w.StateKey(post) {
